@@ -333,7 +333,12 @@ theorem groupby_state_invariance_now (ops1 ops2 : List Op) (hw : writesOf ops1 =
 def readOrderNow : ReadOrder :=
   { dictScanMemFirst := Generated.C10.dictScanMemFirst
     invMemFirst := Generated.C10.invMemFirst
-    fwdMemFirst := Generated.C10.fwdMemFirst }
+    fwdMemFirst := Generated.C10.fwdMemFirst
+    valuesMemFirst := Generated.C10.valuesMemFirst
+    collectMemFirst := Generated.C10.collectMemFirst
+    suggestMemFirst := Generated.C10.suggestMemFirst
+    invGetMemFirst := Generated.C10.invGetMemFirst
+    groupingMemFirst := Generated.C10.groupingMemFirst }
 
 /-- **later_reader_sees_flush.** A query whose read at `pt` is split over two instants — first half on
 a reachable state `s1`, then ANY placement steps run to completion (PrepareFlush, a whole Flush, its
@@ -363,6 +368,60 @@ theorem later_reader_sees_flush_find_now (M : Matcher) (ops : List Op) (hv : Val
     ∀ s, s ∈ S ↔ ∃ t, (m, s, t) ∈ (run flagsNow ops State.init).written ∧ c.eval M t = true :=
   later_reader_sees_flush flagsNow M readOrderNow .dictFind rfl ops hv (Or.inl flagsNow_repaired.2.2.2) steps m c hshape
     (noCollision_now c) (prefix_now M) h
+
+/-- the four filter lookup paths of the current source read their memory tables first (f3a6def) -/
+theorem filter_paths_memory_first_now :
+    readOrderNow.memFirstAt .dictFind = true ∧ readOrderNow.memFirstAt .dictScan = true ∧
+    readOrderNow.memFirstAt .inverted = true ∧ readOrderNow.memFirstAt .forward = true := by decide
+
+/-- **later_reader_sees_flush, current source**: a filter query parked at any of the four lookup paths
+across any placement steps selects exactly the eval set. -/
+theorem later_reader_sees_flush_now (M : Matcher) (pt : ParkPoint)
+    (hpt : pt = .dictFind ∨ pt = .dictScan ∨ pt = .inverted ∨ pt = .forward)
+    (ops : List Op) (hv : ValidOps ops) (steps : List Step) (m : Metric) (c : Expr) (hshape : c.shaped = true)
+    {S : List SeriesId}
+    (h : query flagsNow M (parkedState readOrderNow pt (run flagsNow ops State.init)
+          (run flagsNow (placeOps steps) (run flagsNow ops State.init))) m c = .ok S) :
+    ∀ s, s ∈ S ↔ ∃ t, (m, s, t) ∈ (run flagsNow ops State.init).written ∧ c.eval M t = true := by
+  have hro : readOrderNow.memFirstAt pt = true := by
+    rcases hpt with rfl | rfl | rfl | rfl <;> decide
+  exact later_reader_sees_flush flagsNow M readOrderNow pt hro ops hv (Or.inl flagsNow_repaired.2.2.2) steps m c hshape
+    (noCollision_now c) (prefix_now M) h
+
+/-- **later_grouping_sees_flush.** The group-by part parked across placement steps — at
+`GetGroupingContext` (`.grouping`), at `CollectKVs` (`.collect`), or at any other point — still
+returns exactly the selected series that carry all grouping keys, each with its tag values, provided
+the parked read path reads memory first. -/
+theorem later_grouping_sees_flush (F : Flags) (ro : ReadOrder) (pt : ParkPoint) (hro : ro.memFirstAt pt = true)
+    (ops : List Op) (hv : ValidOps ops) (hb : F.lutCumulative = true ∨ numWrites ops ≤ 131072) (steps : List Step)
+    (m : Metric) (keys : List Bytes) (sel : List SeriesId)
+    (hsel : ∀ s ∈ sel, ∃ t, (m, s, t) ∈ (run F ops State.init).written)
+    {gs : List (SeriesId × List (ValId × Option Bytes))}
+    (h : groupBy F (parkedState ro pt (run F ops State.init) (run F (placeOps steps) (run F ops State.init))) m keys sel = .ok gs) :
+    (∀ s vals, (s, vals) ∈ gs → s ∈ sel ∧ ∃ t, (m, s, t) ∈ (run F ops State.init).written ∧ groupValuesOK t keys vals) ∧
+    (∀ s ∈ sel, ∀ t, (m, s, t) ∈ (run F ops State.init).written → (∀ k ∈ keys, ∃ v, (k, v) ∈ t) → ∃ vals, (s, vals) ∈ gs) := by
+  have hr := run_reach ops (reach_init F) hv (by simpa using hb)
+  obtain ⟨hwf, hcore⟩ := parked_wf hr steps ro pt hro
+  have hl := parked_lutSafe hr steps ro pt hro
+  have hw := (core_eq_iff.mp hcore).2.2.2
+  have := groupby_values F _ hwf hl m keys sel (by rw [hw]; exact hsel) h
+  rw [hw] at this
+  exact this
+
+/-- `GetValues` / `Suggest` parked across placement steps (memory first): every value id of the bucket
+that existed when the call started is returned -/
+theorem later_values_sees_flush (F : Flags) (ro : ReadOrder) (hro : ro.valuesMemFirst = true)
+    (ops : List Op) (hv : ValidOps ops) (hb : F.lutCumulative = true ∨ numWrites ops ≤ 131072) (steps : List Step)
+    (kid : KeyId) (id : ValId) :
+    id ∈ (parkedState ro .values (run F ops State.init) (run F (placeOps steps) (run F ops State.init))).dict.values kid ↔
+      ∃ v, (kid, v, id) ∈ (run F ops State.init).dict.all := by
+  have hr := run_reach ops (reach_init F) hv (by simpa using hb)
+  obtain ⟨k, _⟩ := steps_keep (F := F) steps hr
+  rw [mem_dict_values]
+  simp only [parkedState, hro]
+  constructor
+  · rintro ⟨v, hm⟩; exact ⟨v, (hybridDict_all k.dict k.dictFiles _).mp hm⟩
+  · rintro ⟨v, hm⟩; exact ⟨v, (hybridDict_all k.dict k.dictFiles _).mpr hm⟩
 
 /-! ## The matcher parameters and the meaning of `not` -/
 
@@ -664,6 +723,23 @@ theorem tie_trie_merge_pairing :
       ["itr := kv.tree.NewPrefixIterator(nil)", "keys = append(keys, k)", "ids = append(ids, itr.Value())",
        "itr.Next()"] := by decide
 
+/-- the other five snapshot+memory readers (`GetValues`, `CollectKVs`, `Suggest`, `getSeriesIDs`,
+`GetGroupingContext`+`getGroupingScanners`): snapshot first (flag false) or memory first (flag true,
+fixes/C10-memory-before-snapshot-rest.patch); the lists are the same with and without the yield lines -/
+theorem tie_read_order_rest :
+    ((Generated.C10.valuesOrder = ["GetValues: snapshot memory memory"] ∧ Generated.C10.valuesMemFirst = false) ∨
+     (Generated.C10.valuesOrder = ["GetValues: memory memory snapshot"] ∧ Generated.C10.valuesMemFirst = true)) ∧
+    ((Generated.C10.collectOrder = ["CollectKVs: snapshot memory memory"] ∧ Generated.C10.collectMemFirst = false) ∨
+     (Generated.C10.collectOrder = ["CollectKVs: memory memory snapshot"] ∧ Generated.C10.collectMemFirst = true)) ∧
+    ((Generated.C10.suggestOrder = ["Suggest: snapshot memory memory"] ∧ Generated.C10.suggestMemFirst = false) ∨
+     (Generated.C10.suggestOrder = ["Suggest: memory memory snapshot"] ∧ Generated.C10.suggestMemFirst = true)) ∧
+    ((Generated.C10.invGetOrder = ["getSeriesIDs: snapshot memory"] ∧ Generated.C10.invGetMemFirst = false) ∨
+     (Generated.C10.invGetOrder = ["getSeriesIDs: memory snapshot"] ∧ Generated.C10.invGetMemFirst = true)) ∧
+    ((Generated.C10.groupingOrder = ["GetGroupingContext: snapshot scanners", "getGroupingScanners: memory"] ∧
+        Generated.C10.groupingMemFirst = false) ∨
+     (Generated.C10.groupingOrder = ["GetGroupingContext: scanners", "getGroupingScanners: memory snapshot"] ∧
+        Generated.C10.groupingMemFirst = true)) := by decide
+
 /-! ## Non-vacuity -/
 
 /-- Go's behaviour on literal patterns with an optional `^`: `^x` matches values starting with `x`
@@ -917,6 +993,21 @@ theorem level_order_pairing_permutes :
     let levelIds : List ValId := [1, 3, 2]   -- a, b (length 1) then ab (length 2)
     ((trieIterate t).map (·.1)).zip levelIds = [([97], 1), ([97, 98], 3), ([98], 2)] ∧
     mergeTries [t] = [([97], 1), ([97, 98], 2), ([98], 3)] := by decide
+
+/-- **parked-grouping / parked-collect.** Snapshot-first `GetGroupingContext`: parked across
+PrepareFlush + Flush of the index, the only selected series is in no scanner (`ErrNotFound`);
+snapshot-first `CollectKVs` parked across the metadata flush cannot name the value id. Memory first:
+both are right. -/
+theorem snapshot_first_grouping_misses_flushed_batch :
+    let s1 := run flags0 [.write mCpu [(kHost, [97])]] State.init
+    let si := run flags0 (placeOps [.prepareIndex, .flushIndex]) s1
+    let sm := run flags0 (placeOps [.prepareMeta, .flushMeta]) s1
+    let snapFirst : ReadOrder := { dictScanMemFirst := true, invMemFirst := true, fwdMemFirst := true, groupingMemFirst := false, collectMemFirst := false }
+    let memFirst : ReadOrder := { dictScanMemFirst := true, invMemFirst := true, fwdMemFirst := true }
+    groupBy flags0 (parkedState snapFirst .grouping s1 si) mCpu [kHost] [0] = .error .notFound ∧
+    groupBy flags0 (parkedState memFirst .grouping s1 si) mCpu [kHost] [0] = .ok [(0, [(0, some [97])])] ∧
+    groupBy flags0 (parkedState snapFirst .collect s1 sm) mCpu [kHost] [0] = .ok [(0, [(0, none)])] ∧
+    groupBy flags0 (parkedState memFirst .collect s1 sm) mCpu [kHost] [0] = .ok [(0, [(0, some [97])])] := by decide
 
 end Neg
 
